@@ -7,7 +7,7 @@ package main
 // of THIS server's scopes).  The harness runs many worlds in one process, so it puts the package back
 // into its start-of-process state whenever a world with the jwt-bearer grant is created.  Without
 // this, the anonymous client of a world would carry the scopes of an earlier world (a request for a
-// scope the earlier world lacked is then refused with invalid_scope): see jwtbAnonStale, which shows
+// scope the earlier world lacked is then refused with invalid_scope): see jwtb_anon_test.go, which shows
 // exactly that on the real code.
 
 import (
